@@ -23,19 +23,25 @@ MANIFEST = dict(
          "library; after each top-level step a fresh Teletext page is transmitted: it must be cached and announced (in order, own user "
          "pointer) iff a handler requests Teletext page events.",
     note="Bounded: 2-3 functions, 2 user pointers, 2 event types, <= 4 top-level calls, <= 2 nested calls per delivery. Nested vbi_send_event "
-         "from a callback is outside the statement (the event mutex is not recursive).",
+         "from a callback is outside the statement (the event mutex is not recursive). The model's second event type stands for 'a type "
+         "other than TTX_PAGE'; the replay puts each of the nine other real event types (NETWORK, TRIGGER, CAPTION, ASPECT, PROG_INFO, "
+         "NETWORK_ID, LOCAL_TIME, PROG_ID, CLOSE) in its place in turn.",
 )
 
 BIT = dict(ttx=1, net=2, cap=4)
+# The abstract event type "net" of TtxEvents stands for "an event type other than TTX_PAGE": every behaviour is replayed with one
+# of the real types below in its place (driver command M), taken in turn, so that the clause "Teletext pages are acquired exactly
+# while a handler requests TTX_PAGE events" is decided against every other event type a handler can request.
+OTHER_TYPES = [0x0008, 0x0010, 0x0004, 0x0040, 0x0080, 0x0100, 0x0400, 0x0800, 0x0001]   # NETWORK TRIGGER CAPTION ASPECT PROG_INFO NETWORK_ID LOCAL_TIME PROG_ID CLOSE
 
 
 def mbits(m):
     return sum(BIT[k] for k, v in m.items() if v)
 
 
-def compile_beh(beh):
-    """behaviour -> (driver lines, expectations per output line)"""
-    lines, exp = [], []
+def compile_beh(beh, other=0x0008):
+    """behaviour -> (driver lines, expectations per output line); other: real event type standing for "net" """
+    lines, exp = (["M %x" % other] if other != 0x0008 else []), []
     pg = [0x101]
     across = any(st["act"]["a"] in ("TxHeader", "TxEnd") for st in beh)
 
@@ -89,7 +95,7 @@ def compile_beh(beh):
 
 
 def run_set(ctx, drv, behs, label):
-    comp = [compile_beh(b) for b in behs]
+    comp = [compile_beh(b, OTHER_TYPES[i % len(OTHER_TYPES)]) for i, b in enumerate(behs)]
     chunks = [list(range(k, len(behs), 16)) for k in range(16)]
 
     def job(idx):
@@ -101,7 +107,7 @@ def run_set(ctx, drv, behs, label):
             rp = dict(script=lines, expected=exp)
             if r.get("skipped"):
                 continue
-            nested = any(l.startswith("C") for l in lines)
+            nested = any(l.startswith("C ") for l in lines)
             ctx.count_case(lines, nontrivial=nested)
             nsan = core.report_sanitizers(ctx, r["stderr"], replay=rp, in_scope=True) if r["stderr"] else 0
             got = r["lines"]
@@ -115,7 +121,7 @@ def run_set(ctx, drv, behs, label):
             if bad is None:
                 ctx.validated()
             elif not (r["crashed"] and nsan):
-                outl = [l for l in lines if not l.startswith("C")]
+                outl = [l for l in lines if not l.startswith(("C ", "M "))]
                 what = outl[bad[0]].split()[0] if bad[0] < len(outl) else "?"
                 e = exp[bad[0]] if bad[0] < len(exp) else {}
                 g = got[bad[0]] if bad[0] < len(got) else {}
